@@ -1277,3 +1277,116 @@ def replay_rng(run, body):
 
 
 REPLAYERS["rng"] = replay_rng
+
+
+# =============================================================== C07 wire fidelity (Symbols)
+
+def norm_term(t):
+    k = t["k"]
+    if k in ("var", "str"):
+        return {"k": k, "x": t.get("x", "" if isinstance(t.get("x", ""), str) else 0)}
+    if k == "set":
+        return {"k": "set", "e": [norm_term(e) for e in t.get("e", [])]}
+    return {"k": k, "s": t.get("s", "")}
+
+
+def norm_pred(p):
+    return {"name": p["name"], "terms": [norm_term(t) for t in p.get("terms", [])]}
+
+
+def norm_rule(r, wire):
+    ex = []
+    for e in r.get("exprs", []):
+        ops = []
+        for o in e:
+            if o["k"] == "value":
+                ops.append({"k": "value", "t": norm_term(o["t"])})
+            elif wire:
+                ops.append({"k": o["k"], "c": o.get("c", 0)})
+            else:
+                ops.append({"k": o["k"], "o": o["o"]})
+        ex.append(ops)
+    return {"head": norm_pred(r["head"]), "body": [norm_pred(p) for p in r.get("body", [])], "exprs": ex}
+
+
+def norm_block(b, wire):
+    out = {"context": b.get("context", ""), "facts": [norm_pred(p) for p in b.get("facts", [])],
+           "rules": [norm_rule(r, wire) for r in b.get("rules", [])],
+           "checks": [[norm_rule(q, wire) for q in c] for c in b.get("checks", [])]}
+    if wire:
+        out.update({"symbols": b.get("symbols", []), "version": b.get("version", -1), "unknown": b.get("unknown", 0)})
+    return out
+
+
+def wire_text(c):
+    return "token of %d block(s)%s: first block facts=%s rules=%d checks=%d" % (
+        len(c["blocks"]), " sealed" if c.get("seal") else "", json.dumps(c["blocks"][0]["facts"])[:200],
+        len(c["blocks"][0]["rules"]), len(c["blocks"][0]["checks"]))
+
+
+@check("C07")
+def c07(run):
+    run.rule = ("L1: Symbols.tla models the interning mechanism (working table, SplitOff, Extend, default table, offset 1024) as a state "
+                "machine and TLC proves EncodedWellFormed / DecodeIsContent / NoForwardReference for all histories of <=3 blocks x <=2(3) "
+                "uses over 2 default + 3 fresh names. L3: generated caller-level contents (every term type, nested expressions, sets, default / "
+                "fresh / shared symbols, 1-4 blocks, contexts, root key ids, sealing, intermediate reloads) are built with the real builders, "
+                "serialized and decoded by the harness' independent protowire reader; TLC (TraceWire) checks WellFormed and Decode(wire) = "
+                "content block for block with the specification's own default table and operator table. Round trip (Unmarshal: content, "
+                "revocation ids, root key id, authorization, byte-identical re-serialization) and the version gate (blocks re-signed with "
+                "version absent/0/1/2/4/2^32-1 must be rejected) are judged on the real library. Non-trivial = distinct contents with >=2 "
+                "blocks or expressions.")
+    run.assumptions = ["the independent reader implements pb/biscuit.proto by hand on protowire; protobuf encoding itself is trusted",
+                       "set element order is irrelevant (compared as sets)"]
+    driver = core.build_driver(run.work)
+    r = core.tlc(run.work, "Symbols", "Symbols_thorough" if run.tier == "thorough" else "Symbols", timeout=1700)
+    run.add_tlc(r, "L1 interning mechanism: well-formed + decodes to content")
+    cases = gen_cases(run, driver, "wire")
+    res = core.run_driver(driver, "wire", cases, per_case_timeout=120)
+    events, idx = [], []
+    for c in cases:
+        o = res[c["id"]]
+        nt = len(c["blocks"]) >= 2 or any(b["rules"] or b["checks"] for b in c["blocks"])
+        run.count(c["id"] if nt else None)
+        if o.get("crash"):
+            run.report({"what": "crash"}, c, "wire", "process died: " + o.get("stderr", "")[-300:])
+            continue
+        if "harness" in o:
+            raise Infra("wire harness: " + o["harness"])
+        if "wire_error" in o:
+            run.report({"what": o["wire_error"][:60]}, c, "wire", wire_text(c) + ": " + o["wire_error"])
+            continue
+        if o.get("roundtrip"):
+            rc = confirm_case(driver, "wire", c, o, ("roundtrip",))
+            run.report({"what": o["roundtrip"][0][:70]}, c, "wire", wire_text(c) + ": " + "; ".join(o["roundtrip"]), (lambda rc=rc: rc is not None))
+        events.append({"wire": {"blocks": [norm_block(b, True) for b in o["wire"]["blocks"]]},
+                       "content": {"blocks": [norm_block(b, False) for b in c["blocks"]]}})
+        idx.append(c)
+    bad = validate_traces(run, "TraceWire", "TraceWire", events)
+    for b in bad[:20]:
+        c = idx[b]
+        run.report({"what": "decoded wire content differs", "case": c["id"]}, c, "wire",
+                   "TraceWire rejects: %s: independently decoded wire form is not well formed or does not decode to the caller's content; wire symbols=%s" % (
+                       wire_text(c), [x["symbols"] for x in events[b]["wire"]["blocks"]]))
+    # histories (siblings, seal, reload, GetBlockID) from the SymHeap generator: serialized bytes, reloaded content and
+    # revocation ids of every token must stay what they were at creation (C07: "all build/append/seal/serialize/unmarshal sequences")
+    hist = gen_cases(run, driver, "heap")[:600 if run.tier == "quick" else 6000]
+    heap_expectations(run, hist)
+    heap_stage(run, driver, hist, "history")
+    run.sample({"content": wire_text(cases[3]), "wire_symbols_per_block": [b["symbols"] for b in events[3]["wire"]["blocks"]] if len(events) > 3 else None})
+
+
+def replay_wire(run, body):
+    driver = core.build_driver(run.work)
+    c = dict(body["case"])
+    o = core.run_driver(driver, "wire", [c], nproc=1)[str(c["id"])]
+    run.count("replay")
+    run.count("replay2")
+    if o.get("crash") or "wire_error" in o or o.get("roundtrip"):
+        run.report(body["sig"], c, "wire", "replayed: %s" % (o.get("wire_error") or o.get("roundtrip") or "process died"))
+        return
+    ev = [{"wire": {"blocks": [norm_block(b, True) for b in o["wire"]["blocks"]]}, "content": {"blocks": [norm_block(b, False) for b in c["blocks"]]}}]
+    if validate_traces(run, "TraceWire", "TraceWire", ev, chunks=1):
+        run.report(body["sig"], c, "wire", "replayed: TraceWire rejects " + wire_text(c))
+
+
+REPLAYERS["wire"] = replay_wire
